@@ -76,7 +76,8 @@ def _case(draw):
     rewrite = st.tuples(st.just("rewrite"), st.integers(0, nv - 1), _vec(dim, signed)).map(list)
     # a fit of the same kind of model on OTHER (more spread-out) data in between: later fits on the pooled data must not depend on it
     fit_other = st.tuples(st.just("fit_other"), st.sampled_from(fk), st.sampled_from(fm), st.sampled_from([3.0, 10.0, 0.25])).map(list)
-    ops = draw(st.lists(st.one_of(ev, ev, ev2, ev2, fit, fit, other, rewrite, fit_other), min_size=2, max_size=14))
+    learn = st.tuples(st.just("learn"), st.sampled_from(fm), st.integers(2, 4), st.integers(0, 2**31 - 1)).map(list)
+    ops = draw(st.lists(st.one_of(ev, ev, ev2, ev2, fit, fit, other, rewrite, fit_other, learn), min_size=2, max_size=14))
     if draw(st.booleans()):
         # a compact history: fit, fit the same kind of model on other data, fit again on the pooled data
         k_, m_ = draw(st.sampled_from(fk)), draw(st.sampled_from(fm))
@@ -214,6 +215,20 @@ def check_case(case):
                         nontriv = True
                 else:
                     fit_memo[key] = (st_, pr_, oi)
+            elif op[0] == "learn":
+                # learning over the validation set works on COPIES here (it exchanges rows by design); afterwards the object must
+                # predict exactly like a fresh classifier fitted on the training set its forest holds
+                m_l = libcall(models.classes()["sup"], distance=op[1])
+                np.random.seed(op[3] % (2**32))
+                libcall(m_l.learn, A["X"].copy(), A["Y"].copy(), A["Xv"].copy(), A["Yv"].copy(), op[2])
+                Xn = np.array([np.asarray(nd.features, dtype=float) for nd in m_l.subgraph.nodes])
+                Yn = np.array([int(nd.label) for nd in m_l.subgraph.nodes], dtype=int)
+                m_f = libcall(models.classes()["sup"], distance=op[1])
+                libcall(m_f.fit, Xn.copy(), Yn.copy())
+                p_l = [int(v) for v in libcall(m_l.predict, A["Q"].copy())]
+                p_f = [int(v) for v in libcall(m_f.predict, A["Q"].copy())]
+                require(p_l == p_f, "object_predicts_with_the_forest_it_holds", lambda: "after learn() the object predicts %r, a fresh fit on the training set held by its forest predicts %r" % (p_l, p_f))
+                touched_between |= seen_keys
             elif op[0] == "fit_other":
                 B = dict(A, X=A["X"] * op[3] + 1.0, Xv=A["Xv"] * op[3] + 1.0, Q=A["Q"] * op[3])
                 _fit(op[1], op[2], B)
